@@ -152,6 +152,35 @@ def operation_histories(consts: dict, ref: dict) -> list:
     return out
 
 
+COUNTER_BOUNDARIES = [1000, 10000, 65536, 100000, 131072, 1000000, 1048576]
+
+
+def _after_counter(boundary: int, consts: dict, ref: dict) -> list[tuple[str, str]]:
+    from sympy.physics import units as U
+    from symplyphysics import Quantity
+    from symplyphysics.core.symbols import id_generator as G
+    try:
+        cur = int(G.last_id("QTY"))
+    except KeyError:
+        cur = 0
+    while cur < boundary - 3:
+        cur = G.next_id("QTY")  # the public counter; creating a million quantities is too slow
+        if cur >= boundary - 3:
+            break
+    made = [Quantity((5 + i) * U.meter) for i in range(60)]
+    out = []
+    for n, q in sorted(consts.items()):
+        if n in ref["constants"]:
+            for m in _check_constant(n, q, ref["constants"][n]):
+                out.append((n, m))
+    # ... and the new quantities are themselves intact
+    for i, q in enumerate(made):
+        if q.scale_factor != 5 + i:
+            out.append((f"new{i}", f"quantity created as {5 + i} m reads {q.scale_factor}"))
+            break
+    return out
+
+
 def main(run: Run) -> int:
     with open(REF) as f:
         ref = json.load(f)
@@ -195,10 +224,24 @@ def main(run: Run) -> int:
             msgs = [f"identity {ident['name']}: constant {e} missing"]
         for m in msgs:
             run.violation(f"identity:{ident['name']}", m, {"kind": "identity", "name": ident["name"]})
+    # long creation histories: the generated-name counter just below a digit-count or
+    # power-of-two boundary, then a batch of new quantities; the table must still be right
+    from .c03 import in_child
+    for boundary in COUNTER_BOUNDARIES if run.thorough else COUNTER_BOUNDARIES[:5]:
+        res = in_child(lambda b=boundary: _after_counter(b, consts, ref), timeout=600)
+        run.case(f"counter:{boundary}", outcome="after-long-history")
+        if isinstance(res, dict) and "error" in res:
+            run.undecide(f"counter:{boundary}", res["error"])
+            continue
+        for n, m in res:
+            run.violation(f"counter:{boundary}:{n}", f"after advancing the quantity counter to "
+                f"{boundary} - 3 and creating 60 quantities: {m}", {"kind": "counter", "boundary":
+                boundary, "name": n})
     return run.finish(
         rule="one case per (module-level Quantity of symplyphysics.quantities x {dimension, SI value}), "
         "per __all__ entry, per listed identity, and per (public operation, constant) pair with the "
-        "constant re-read after the operation; all are distinct and non-trivial (each compares "
+        "constant re-read after the operation; the table re-read after the name counter crossed each "
+        "digit-count / power-of-two boundary and 60 quantities were created; all are distinct and non-trivial (each compares "
         "library data with an independent reference entry)",
         exhaustive=True,
         assumptions=["reference table data/constants_ref.json (CODATA 2018, IAU 2015) typed by hand",
@@ -219,6 +262,10 @@ def replay(case: dict) -> list[str]:
     if k == "identity":
         ident = [i for i in ref["identities"] if i["name"] == case["name"]][0]
         return _check_identity(ident, consts)
+    if k == "counter":
+        from .c03 import in_child
+        res = in_child(lambda: _after_counter(case["boundary"], consts, ref), timeout=600)
+        return [m for n, m in res if n == case["name"]] if isinstance(res, list) else [str(res)]
     if k == "operation":
         return [m for o, n, m in operation_histories(consts, ref) if m and n == case["name"] and
             o == case["op"]]
